@@ -1,6 +1,7 @@
 import Props.C09
 import Proofs.NStepAlign
 import Proofs.NStepGenEq
+import Proofs.SamplerGenEq
 
 /-!
 # C10 — n-step returns never cross an episode boundary and stay aligned with 1-step data
@@ -425,5 +426,231 @@ example : ((run 3 (1/2) true 4 4 demo).nSlot 0).map (·.obs) = some 12 ∧
 -- the unrepaired variant on the same stream: window 1 swallows the next episode of environment 1
 example : (run 3 (1/2) false 4 4 demo).nRows.getD 1 [] =
     [⟨11, 11, 4 + 16/2 + 64/4, 14, true⟩, ⟨21, 21, 8 + 32/2 + 128/4, 32, false⟩] := by decide +kernel
+
+
+/-! ### the sampling path: which rows a learn step pairs
+
+`sampleBlock flat per oneStep nStep drawn` (Model/NStep.lean) is what one `agent.learn(experiences, n_experiences)`
+call of `train_off_policy` receives when the 1-step buffer drew the indices `drawn`: the 1-step rows, the index
+entry (a (B,1) column for PER), the n-step rows read by `Sampler.sample_n_step` with these indices.
+`flat = true` is the code as repaired (the column is flattened first). -/
+
+/-- **which method a `Sampler` installs** is decided by the class of its buffer: prioritised ↦ `sample_per`,
+    multi-step ↦ `sample_n_step`, every other buffer ↦ `sample_standard`; no memory and no dataset / dataloader
+    is refused; a dataset with a torch `DataLoader` always selects the distributed method -/
+theorem C10_sampler_mode_by_class :
+    (∀ c, c ≠ MemClass.none → samplerMode c false false false =
+      some (match c with | .prioritized => SMode.per | .multiStep => SMode.nStep | _ => SMode.standard)) ∧
+    (∀ ds lt, samplerMode .none ds false lt = none) ∧ (∀ lg lt, samplerMode .none false lg lt = none) ∧
+    (∀ c, samplerMode c true true true = some .distributed) := by
+  refine ⟨?_, ?_, ?_, ?_⟩
+  · intro c hc; cases c <;> first | exact absurd rfl hc | rfl
+  · intro ds lt; cases ds <;> cases lt <;> rfl
+  · intro lg lt; cases lg <;> cases lt <;> rfl
+  · intro c; cases c <;> rfl
+
+/-- **row i of the n-step batch and row i of the 1-step batch carry the same index**, for every index list,
+    uniform or prioritised: both batches have one record per row (no extra axis), the same number of rows, and
+    row `i` of either is its storage read at `drawn[i]`; the index entry handed on is `drawn` itself -/
+theorem C10_paired_rows_same_index {α : Type} (per : Bool) (oneStep nStep : Nat → α) (drawn : List Nat) :
+    let p := sampleBlock true per oneStep (some nStep) drawn
+    p.oneExtra = 0 ∧ p.nstExtra = 0 ∧ p.one.length = drawn.length ∧ p.oneIdx.map (·.vals) = some drawn ∧
+    ∃ nrows, p.nst = some nrows ∧ nrows.length = drawn.length ∧
+      ∀ i (hi : i < drawn.length), p.one[i]? = some (oneStep drawn[i]) ∧ nrows[i]? = some (nStep drawn[i]) := by
+  intro p
+  refine ⟨rfl, rfl, by simp [p, sampleBlock], by cases per <;> rfl, _, rfl, by simp [pairedSample], ?_⟩
+  intro i hi
+  simp [p, sampleBlock, pairedSample, hi]
+
+/-- **… hence the same (obs, action)**: when the two storages are those reached by `train_off_policy`'s storing
+    statements from any stream (equal capacities, any wrap-around) and the indices lie in the filled part, row `i`
+    of the n-step batch is the fused record of some (start position `k`, environment `e`) and row `i` of the
+    1-step batch is the raw transition of the *same* `(k, e)` -/
+theorem C10_paired_rows_same_obs_action (n m cap : Nat) (γ : Rat) (fixed : Bool) (hn : 1 ≤ n)
+    (hm : 0 < m) (hmc : m ≤ cap) (rows : List Row) (hrows : ∀ r ∈ rows, r.length = m) (per : Bool)
+    (drawn : List Nat) (hd : ∀ j ∈ drawn, j < (run n γ fixed cap cap rows).nbuf.size) :
+    let s := run n γ fixed cap cap rows
+    let p := sampleBlock true per s.oSlot (some s.nSlot) drawn
+    p.oneExtra = 0 ∧ p.nstExtra = 0 ∧ ∃ nrows, p.nst = some nrows ∧ nrows.length = p.one.length ∧
+      ∀ i, i < p.one.length → ∃ k e, k < rows.length + 1 - n ∧ e < m ∧
+        p.one[i]? = some (some (cellAt rows k e)) ∧
+        nrows[i]? = some (some (fuseAt fixed γ ((rows.drop k).take n) e)) ∧
+        (fuseAt fixed γ ((rows.drop k).take n) e).obs = (cellAt rows k e).obs ∧
+        (fuseAt fixed γ ((rows.drop k).take n) e).act = (cellAt rows k e).act := by
+  intro s p
+  obtain ⟨h1, h2, h3, _, nrows, h5, h6, h7⟩ := C10_paired_rows_same_index per s.oSlot s.nSlot drawn
+  refine ⟨h1, h2, nrows, h5, by rw [h6, h3], ?_⟩
+  intro i hi
+  have hi' : i < drawn.length := by rw [← h3]; exact hi
+  obtain ⟨a, b⟩ := h7 i hi'
+  have hj := hd drawn[i] (List.getElem_mem hi')
+  obtain ⟨_, _, hall⟩ := C10_aligned_through_wraparound n m cap γ fixed hn hm hmc rows hrows
+  obtain ⟨k, e, hk, he, _, _, hns, hos, ho, ha⟩ := hall drawn[i] hj
+  exact ⟨k, e, hk, he, by rw [a]; exact congrArg some hos, by rw [b]; exact congrArg some hns, ho, ha⟩
+
+/-- **for PER the indices whose priorities are updated are the ones sampled**: a learner that hands back the
+    index entry of its 1-step batch makes `memory.update_priorities` receive exactly the drawn indices (as the
+    (B,1) column); without PER nothing is updated -/
+theorem C10_per_update_indices_are_sampled {α : Type} (oneStep : Nat → α) (nStep : Option (Nat → α))
+    (drawn : List Nat) (learnIdx : Paired α → Option IdxCol) (hecho : ∀ p, learnIdx p = p.oneIdx) :
+    updatesOf true (learnIdx (sampleBlock true true oneStep nStep drawn)) = [some ⟨drawn, 1⟩] ∧
+    updatesOf false (learnIdx (sampleBlock true false oneStep nStep drawn)) = [] := by
+  rw [hecho]; exact ⟨rfl, rfl⟩
+
+/-- history of the defect found in seeded round 3: before `Sampler.sample_n_step` flattened the index tensor, the
+    n-step batch sampled next to a prioritised buffer inherited the extra axis of the (B,1) column (every sample
+    was then broadcast against every n-step return); the uniform path was never affected -/
+theorem C10_unflattened_index_column_witness :
+    (sampleBlock false true (fun j => j) (some fun j => 10 * j) [3, 1]).nstExtra = 1 ∧
+    (sampleBlock true true (fun j => j) (some fun j => 10 * j) [3, 1]).nstExtra = 0 ∧
+    (sampleBlock false false (fun j => j) (some fun j => 10 * j) [3, 1]).nstExtra = 0 := by decide
+
+-- non-vacuity on the wrapped `demo` storages: slots 2 and 0 are filled; the paired rows are (obs 11 | obs 11), (12 | 12)
+example : (run 3 (1/2) true 4 4 demo).nbuf.size = 4 := by decide +kernel
+example : ((sampleBlock true true (run 3 (1/2) true 4 4 demo).oSlot (some (run 3 (1/2) true 4 4 demo).nSlot) [2, 0]).one.map
+      (·.map (·.obs)),
+    ((sampleBlock true true (run 3 (1/2) true 4 4 demo).oSlot (some (run 3 (1/2) true 4 4 demo).nSlot) [2, 0]).nst.getD []).map
+      (·.map (·.obs))) = ([some 11, some 12], [some 11, some 12]) := by decide +kernel
+
+/-! ### the sampling path over the definitions generated from the source text
+
+`Gen/SamplerGen.lean` is written by `harness/py2lean_sampler.py` from the text of `ReplayBuffer.sample`,
+`MultiStepReplayBuffer.sample_from_indices`, `PrioritizedReplayBuffer.sample`, the class statements of
+replay_buffer.py, `Sampler.__init__ / sample_standard / sample_per / sample_n_step` and the sampler set-up, the
+storing statements and the `if per:` learn blocks of `train_off_policy`; `Proofs/SamplerGenEq.lean` proves them
+equal to the model. -/
+section sampler_translation
+open SamplerGen
+
+/-- every generated definition equals the model: `isinstance` = the class tests, `Sampler.__init__` =
+    `samplerMode`, the three buffer methods and the three sampler methods read the storage with the drawn /
+    given indices, all learn blocks have one translation, SETUP + LEARN = `sampleBlock true`, the storing
+    statements = the pairing of `genStep` -/
+theorem C10_source_translation_sampler_equalities {α β ω π : Type} :
+    (∀ c, isinstance_PrioritizedReplayBuffer (toKind c) = decide (c = .prioritized) ∧
+      isinstance_MultiStepReplayBuffer (toKind c) = decide (c = .multiStep) ∧
+      isinstance_ReplayBuffer (toKind c) = decide (c = .replay ∨ c = .multiStep ∨ c = .prioritized) ∧
+      isinstance_MultiAgentReplayBuffer (toKind c) = decide (c = .multiAgent)) ∧
+    (∀ c (store : Nat → α) size ds dl, (Sampler_init ⟨toKind c, store, size⟩ ds dl).map (·.sample) =
+      (samplerMode c ds (dl != .none) (dl == .DataLoader)).map toMode) ∧
+    (∀ (mem : Mem α) (env : Env β ω) B r, ReplayBuffer_sample mem env B r =
+      some { rows := (pairedSample ((env.randperm 0 mem.size).take B) mem.store mem.store).1, extra := 0,
+             idxs := if r then some ⟨(env.randperm 0 mem.size).take B, 0, true⟩ else none, weights := none }) ∧
+    (∀ (mem : Mem α) (env : Env β ω) B b, PrioritizedReplayBuffer_sample mem env B b =
+      some { rows := (pairedSample (env.sample_proportional 0 B) mem.store mem.store).1, extra := 0,
+             idxs := some ⟨env.sample_proportional 0 B, 1, true⟩,
+             weights := some (env.calculate_weights ⟨env.sample_proportional 0 B, 0, true⟩ b) }) ∧
+    (∀ (s : Sampler α), s.memory.kind = .MultiStepReplayBuffer → ∀ (env : Env β ω) (i : IdxT),
+      (Sampler_sample_n_step s env i : Option (Batch α ω)) =
+        some { rows := i.vals.map s.memory.store, extra := if i.tensor then 0 else i.extra, idxs := none,
+               weights := none }) ∧
+    (∀ b ∈ (learn_blocks : List (Bool → Mem α → Option (Mem α) → Sampler α → Option (Sampler α) → (Nat → Env β ω) → Nat → β →
+      (Batch α ω → Option (Batch α ω) → Bool → LearnRet π) → Option (BlockOut α ω π))), b = learn_block_0) ∧
+    (∀ n γ g x, genStoreStep n γ g x = genStep n γ g x) :=
+  ⟨gen_isinstance_eq, gen_sampler_init_eq, gen_replay_sample_eq, gen_per_sample_eq,
+   fun s h env i => gen_sample_n_step_eq s h env i, gen_learn_blocks_eq, gen_store_block_eq⟩
+
+/-- **row i of the n-step batch and row i of the 1-step batch describe the same (obs, action)**, over the
+    generated set-up and learn block.  The two storages are those reached from any stream by the storing
+    statements (equal capacities, any wrap-around); the 1-step buffer is uniform or prioritised and `per` is set
+    accordingly; `drawn` (the permutation prefix resp. the proportional draw) lies in the filled part.  Then the
+    block makes exactly one `agent.learn` call, both batches have one record per row, and row `i` of the n-step
+    batch is the fused record of the very `(k, e)` whose raw transition is row `i` of the 1-step batch. -/
+theorem C10_source_translation_sampler_rows_aligned {β ω π : Type} (n m cap : Nat) (γ : Rat) (fixed : Bool) (hn : 1 ≤ n)
+    (hm : 0 < m) (hmc : m ≤ cap) (rows : List Row) (hrows : ∀ r ∈ rows, r.length = m)
+    (c : MemClass) (hc : c = .replay ∨ c = .prioritized) (env : Nat → Env β ω) (B : Nat) (b : β)
+    (learn : Batch (Option Cell) ω → Option (Batch (Option Cell) ω) → Bool → LearnRet π)
+    (hd : ∀ j ∈ (if decide (c = .prioritized) then (env 0).sample_proportional 0 B
+                 else ((env 0).randperm 0 (run n γ fixed cap cap rows).obuf.size).take B),
+            j < (run n γ fixed cap cap rows).nbuf.size) :
+    let s := run n γ fixed cap cap rows
+    let memory : Mem (Option Cell) := ⟨toKind c, s.oSlot, s.obuf.size⟩
+    let nmem : Option (Mem (Option Cell)) := some ⟨.MultiStepReplayBuffer, s.nSlot, s.nbuf.size⟩
+    let per := decide (c = .prioritized)
+    ∃ out call nb, ((setup memory nmem).bind fun p => learn_block_0 per memory nmem p.1 p.2 env B b learn) = some out ∧
+      out.calls = [call] ∧ call.per = per ∧ call.n_experiences = some nb ∧
+      call.experiences.extra = 0 ∧ nb.extra = 0 ∧ nb.rows.length = call.experiences.rows.length ∧
+      ∀ i, i < call.experiences.rows.length → ∃ k e, k < rows.length + 1 - n ∧ e < m ∧
+        call.experiences.rows[i]? = some (some (cellAt rows k e)) ∧
+        nb.rows[i]? = some (some (fuseAt fixed γ ((rows.drop k).take n) e)) ∧
+        (fuseAt fixed γ ((rows.drop k).take n) e).obs = (cellAt rows k e).obs ∧
+        (fuseAt fixed γ ((rows.drop k).take n) e).act = (cellAt rows k e).act := by
+  intro s memory nmem per
+  obtain ⟨out, call, h1, h2, h3, h4, _, _⟩ :=
+    gen_train_sample_eq (π := π) c hc s.oSlot s.obuf.size (some s.nSlot) s.nbuf.size env B b learn
+  obtain ⟨p1, p2, nrows, p3, p4, p5⟩ :=
+    C10_paired_rows_same_obs_action n m cap γ fixed hn hm hmc rows hrows per _ hd
+  rw [← h4] at p1 p2 p3 p4 p5
+  simp only [viewCall] at p1 p2 p3 p4 p5
+  cases hne : call.n_experiences with
+  | none => rw [hne] at p3; simp at p3
+  | some nb =>
+    rw [hne] at p2 p3
+    simp only [Option.map_some, Option.getD_some] at p2 p3
+    have : nb.rows = nrows := by simpa using p3
+    subst this
+    exact ⟨out, call, nb, h1, h2, h3, hne, p1, p2, p4, p5⟩
+
+/-- **for PER the indices whose priorities are updated are the ones sampled**, over the generated blocks: with a
+    prioritised buffer and a learner that returns the `idxs` entry of the batch it was given, the single
+    `memory.update_priorities` call receives the proportional draw (as the (B,1) column) and the weights handed to
+    the learner are those of the same draw; with a uniform buffer `update_priorities` is not called.  With or
+    without an n-step memory. -/
+theorem C10_source_translation_sampler_per_update {α β ω π : Type} (store : Nat → α) (size : Nat)
+    (nstore : Option (Nat → α)) (nsize : Nat) (env : Nat → Env β ω) (B : Nat) (b : β)
+    (learn : Batch α ω → Option (Batch α ω) → Bool → LearnRet π) (hecho : ∀ e ne p, (learn e ne p).idxs = e.idxs) :
+    let nmem : Option (Mem α) := nstore.map (fun s => ⟨.MultiStepReplayBuffer, s, nsize⟩)
+    (∃ out call, ((setup ⟨.PrioritizedReplayBuffer, store, size⟩ nmem).bind fun p =>
+        learn_block_0 true ⟨.PrioritizedReplayBuffer, store, size⟩ nmem p.1 p.2 env B b learn) = some out ∧
+      out.calls = [call] ∧ call.per = true ∧
+      out.updates.map (fun u => u.1.map viewIdx) = [some ⟨(env 0).sample_proportional 0 B, 1⟩] ∧
+      call.experiences.rows = ((env 0).sample_proportional 0 B).map store ∧
+      call.experiences.weights = some ((env 0).calculate_weights ⟨(env 0).sample_proportional 0 B, 0, true⟩ b)) ∧
+    (∃ out, ((setup ⟨.ReplayBuffer, store, size⟩ nmem).bind fun p =>
+        learn_block_0 false ⟨.ReplayBuffer, store, size⟩ nmem p.1 p.2 env B b learn) = some out ∧ out.updates = []) := by
+  intro nmem
+  constructor
+  · obtain ⟨out, call, h1, h2, h3, h4, h5, h6⟩ :=
+      gen_train_sample_eq .prioritized (Or.inr rfl) store size nstore nsize env B b learn
+    refine ⟨out, call, h1, h2, h3, ?_, ?_, h6 rfl⟩
+    · rw [h5, hecho]
+      have := congrArg Paired.oneIdx h4
+      simp only [viewCall] at this
+      simp [updatesOf, this, sampleBlock]
+    · have := congrArg Paired.one h4
+      simpa [viewCall, sampleBlock] using this
+  · obtain ⟨out, call, h1, _, _, _, h5, _⟩ :=
+      gen_train_sample_eq .replay (Or.inl rfl) store size nstore nsize env B b learn
+    exact ⟨out, h1, h5⟩
+
+/-- **index k of both buffers describes the same step**, over the generated storing statements
+    (`one = n_step_memory.add(t); if one is not None: memory.add(one)`) folded over an arbitrary stream with the
+    generated `MultiStepReplayBuffer.add` as `n_step_memory.add`: both buffers receive `K = L + 1 - n` records,
+    the k-th record handed to the 1-step buffer is stream row `k`, the k-th record handed to the n-step storage is
+    `_get_n_step_info` of the window starting at `k`; without an n-step memory the transition itself is stored -/
+theorem C10_source_translation_sampler_store_pairing (n m : Nat) (γ : Rat) (hn : 1 ≤ n) (X : List NStepGen.TD)
+    (hX : ∀ t ∈ X, TDWF m t) :
+    (∃ g, X.foldl (genStoreStep n γ) (some ⟨[], [], []⟩) = some g ∧
+      g.stored.length = X.length + 1 - n ∧ g.ret.length = X.length + 1 - n ∧
+      ∀ k, k < X.length + 1 - n →
+        g.ret[k]? = X[k]? ∧ NStepGen.get_n_step_info n γ ((X.drop k).take n) = g.stored[k]?) ∧
+    (∀ (σ τ : Type) (nAdd : σ → τ → Option (σ × Option τ)) (t : τ), store_block none nAdd t = some (none, [t])) := by
+  refine ⟨?_, fun _ _ nAdd t => gen_store_block_plain nAdd t⟩
+  rw [gen_store_run_eq]
+  obtain ⟨g, h1, h2, h3, _, h5⟩ := C10_source_translation_kth_records_aligned n m γ hn X hX
+  exact ⟨g, h1, h2, h3, h5⟩
+
+-- non-vacuity: a prioritised 1-step buffer beside a multi-step buffer, indices [2, 0] drawn: one learn call,
+-- rows read at 2 and 0 from either storage, no extra axis on the n-step batch, the update receives the column
+example :
+    (((setup (⟨.PrioritizedReplayBuffer, fun j => 100 + j, 4⟩ : Mem Nat) (some ⟨.MultiStepReplayBuffer, fun j => 200 + j, 4⟩)).bind
+        fun p => learn_block_0 (π := Unit) true ⟨.PrioritizedReplayBuffer, fun j => 100 + j, 4⟩
+          (some ⟨.MultiStepReplayBuffer, fun j => 200 + j, 4⟩) p.1 p.2
+          (fun _ => (⟨fun _ _ => [], fun _ _ => [2, 0], fun _ _ => ()⟩ : Env Unit Unit)) 2 () (fun e _ _ => ⟨e.idxs, none⟩)).map
+      fun o => (o.calls.map fun c => (c.experiences.rows, c.n_experiences.map (fun nb => (nb.rows, nb.extra)), c.per),
+                o.updates.map (·.1))) =
+      some ([([102, 100], some ([202, 200], 0), true)], [some ⟨[2, 0], 1, true⟩]) := by rfl
+
+end sampler_translation
 
 end NStep
